@@ -97,6 +97,23 @@ func (kd *keyDomains) of(f *ssa.Function, v ssa.Value, depth int) domSet {
 		case strings.HasSuffix(k, ".GetName"):
 			out["bare"] = true
 		default:
+			// a module helper that returns a name: the domain(s) of what it returns
+			// (e.g. an exported wrapper around relativeName)
+			g := engine.StaticFn(x.Common())
+			if g != nil && strings.HasPrefix(FK(g), engine.ModPrefix) && len(g.Blocks) > 0 && g.Signature.Results().Len() == 1 && isStringT(g.Signature.Results().At(0).Type()) {
+				n := 0
+				for _, b := range g.Blocks {
+					for _, in := range b.Instrs {
+						if rt, ok := in.(*ssa.Return); ok {
+							n++
+							out.add(kd.of(g, engine.RetVal(rt, 0), depth+1))
+						}
+					}
+				}
+				if n > 0 {
+					break
+				}
+			}
 			out["?call:"+Short(k)] = true
 		}
 	case *ssa.Extract:
